@@ -50,7 +50,20 @@ def run(c):
             # Large model (which documents the engine's selection algorithm) and the microstep is in a listed class
             cls = sc[0] if ok else sc[0] + '+model-disagrees'
             oracle.setdefault(cls, []).append(i)
-    c.cov['evaluations'] = 3 * len(cases)
+    # ---- the conflict caches (LargeCache.v): contents after the run, implementation vs extracted model
+    vdc = ensure_vdriver('hooks', units=['vd_run', 'vd_cache'])
+    vmc = ensure_vmodel('chart')
+    cidx = [i for i, x in enumerate(cases) if x['origin'].split('(')[0].split(':')[0] in ('corpus', 'regions', 'exhaustive3', 'random-null')
+            and not res['large'][i].startswith('CRASH')]
+    ci, _ = run_lines_sharded(vdc, ['cache %s %d %s' % (G.to_scxml(cases[i]['tree'], cases[i]['dm'], cases[i]['late']).encode('latin-1').hex(), FUEL,
+                                                      ' '.join(G.hx(e) for e in cases[i]['events'])) for i in cidx], timeout=1500)
+    cm, _ = run_lines_sharded(vmc, ['cache %s %d %d %s (%s)' % (vflags, 1 if cases[i]['late'] else 0, FUEL, G.sx_tree(cases[i]['tree']),
+                                                              ' '.join(G.hx(e) for e in cases[i]['events'])) for i in cidx], timeout=1500)
+    cache_bad = [i for i, a, b in zip(cidx, ci, cm) if a.strip() != b.strip() and i not in disagreements]
+    c.cov['cache_contents_compared'] = len(cidx)
+    c.cov['cache_contents_nonempty'] = sum(1 for a in ci if a.strip() != 'K compat= confl=')
+    c.cov['cache_disagreements'] = len(cache_bad)
+    c.cov['evaluations'] = 3 * len(cases) + 2 * len(cidx)
     c.cov['distinct_nontrivial'] = len(nontriv)
     c.cov['rule'] = ('corpus of defect witnesses + all trees with <=3 (thorough: <=4) proper states x pairs of transitions from a menu '
                      '(sampled deterministically to a cap) x event words <=2 over {e,f} (null datamodel) + the region family (<parallel> with three regions x 6 region shapes x 3 event descriptors, outside state before or after, primed event words; quick: every 5th chart) + seeded random charts with history, '
@@ -91,6 +104,12 @@ def run(c):
         c.violation(case_replay(c, cases[i], {'kind': 'correspondence', 'count': len(disagreements),
                                               'what': 'Large.large_step (variant %s) and the implementation differ; on these inputs the implementation still agrees with Spec' % vflags,
                                               'model': ' '.join(d[2][max(0, p - 8):p + 8]), 'observed': ' '.join(d[1][max(0, p - 8):p + 8])}), no_input=True)
+    if cache_bad and not disagreements:
+        i = shrink_order(cache_bad, cases)[0]
+        k = cidx.index(i)
+        c.violation(case_replay(c, cases[i], {'kind': 'correspondence', 'count': len(cache_bad),
+                                              'what': 'the compatible/conflicting sets of LargeMicroStep after the run differ from LargeCache.v (the traces agree)',
+                                              'model': cm[k], 'observed': ci[k]}), no_input=True)
     only_known = all(c.match_known({'class': k}) for k in oracle)
     if broken and (not oracle or only_known):
         for b in broken:
